@@ -73,7 +73,8 @@ func (wal *WAL) OnStart() error {
 	size, err := wal.group.Head.Size()
 	if err != nil {
 		return err
-	} else if size == 0 {
+	} else if size == 0 && wal.group.MaxIndex() == 0 {
+		// a brand-new WAL; an empty head after a rotation is not one
 		wal.writeHeight(1)
 	}
 	_, err = wal.group.Start()
